@@ -265,6 +265,58 @@ def run(ctx):
               "del edges[common ownEdges of v0 and v1] precedes every SmallEdge.replace_vertex",
               "the edge joining the two merged vertices is not deleted before the remaining edges are re-pointed (it would end twice at the new vertex)")
 
+    # every re-pointing in join_two_vertices replaces the vertex whose own list is being walked by the new vertex
+    newv = [e.value for e in sj.stores() if e.sub and e.value[0] == "call" and e.value[1] == "new:forsys.vertex.Vertex"]
+    rp_all = [e for e in sj.events if e.kind == "call" and e.target in (f"{SE}.replace_vertex", f"{CELL}.replace_vertex")]
+    okr = bool(newv) and len(rp_all) >= 4
+    detail = []
+    for e in rp_all:
+        lp = e.loops()
+        if len(lp) != 1 or len(e.args) != 2:
+            okr = False
+            continue
+        it = lp[0][2]
+        owner = None
+        if it[0] == "map" and it[1] == it[2] and it[3][0] in ("attr", "phi"):
+            src = it[3]
+        elif it[0] in ("attr", "phi"):
+            src = it
+        elif it[0] == "call" and it[1] in (("m", "copy"), "list") and it[2]:
+            src = it[2][0]
+        else:
+            src = None
+
+        def owner_of(t):
+            if t is None:
+                return None
+            if t[0] == "attr" and t[2] in ("ownEdges", "ownCells"):
+                return t[1]
+            if t[0] == "phi":
+                a_, b_ = owner_of(t[2]), owner_of(t[3])
+                return T.phi(t[1], a_, b_) if a_ is not None and b_ is not None else None
+            return None
+        owner = owner_of(src)
+        old_arg = e.args[0]
+        # vertices[V.id] is V
+        def strip_lookup(t):
+            if t[0] == "idx" and t[2][0] in ("attr", "phi"):
+                def unid(x):
+                    if x[0] == "attr" and x[2] == "id":
+                        return x[1]
+                    if x[0] == "phi":
+                        a_, b_ = unid(x[2]), unid(x[3])
+                        return T.phi(x[1], a_, b_) if a_ is not None and b_ is not None else None
+                    return None
+                return unid(t[2])
+            return t
+        same = owner is not None and strip_lookup(old_arg) == owner
+        isnew = e.args[1] == newv[0] if newv else False
+        detail.append((e.node.lineno, same, isnew))
+        okr = okr and same and isnew
+    ctx.check(okr, "PAIR", f"{jv.qualname} / PAIR / each re-pointing replaces the vertex whose own list is walked by the merged vertex", ctx.where(jv),
+              f"{len(rp_all)} replace_vertex calls: old = owner of the iterated list, new = the merged vertex",
+              f"a replace_vertex call in join_two_vertices does not replace the vertex whose ownEdges/ownCells it is iterating (line, old-is-owner, new-is-merged): {detail}")
+
     # generate_mesh: rebuilt edges join ids of the kept interfaces, whose complement is exactly what is removed
     gm = repo.func("forsys.virtual_edges.generate_mesh")
     ctx.touch(gm)
@@ -358,6 +410,7 @@ def run(ctx):
 _E, _C, _V, _S, _SE, _F, _W, _X = ("forsys/edge.py", "forsys/cell.py", "forsys/virtual_edges.py", "forsys/skeleton.py",
                                     "forsys/surface_evolver.py", "forsys/forsys.py", "forsys/wkt.py", "forsys/vertex.py")
 PINNED = [
+    ("join_two_vertices re-points the second vertex's edges away from the first vertex", _V, "    for edge_id in list_of_edges_1:\n        edges[edge_id].replace_vertex(vertices[v1.id], new_vertex)", "    for edge_id in list_of_edges_1:\n        edges[edge_id].replace_vertex(vertices[v0.id], new_vertex)"),
     ("destructor no longer unregisters", _E, "            if self.id in v.ownEdges:\n                v.remove_edge(self.id)", "            pass"),
     ("constructor registers only on v1", _E, "        self.verticesArray = [self.v1, self.v2]\n        for v in self.verticesArray:\n            v.add_edge(self.id)",
      "        self.verticesArray = [self.v1, self.v2]\n        for v in self.verticesArray[:1]:\n            v.add_edge(self.id)"),
